@@ -27,7 +27,8 @@ def graph_cases(draw, tier):
     return {"graph": graph, "queries": [list(q) for q in queries],
             "matrix_dtype": draw(st.sampled_from(["int64", "int64", "uint8", "bool", "int32", "uint16", "float64", "int8",
                                                   "int16"])),
-            "verbose": draw(st.integers(0, 3)) == 0, "layout": draw(st.sampled_from([None, None, "F", "strided"]))}
+            "verbose": draw(st.integers(0, 3)) == 0, "layout": draw(st.sampled_from([None, None, "F", "strided"])),
+            "maximum_length": draw(st.sampled_from([None, None, None, 1, 3, 0]))}
 
 
 def leaf_multiset(rows, k, v, depth):
@@ -76,7 +77,17 @@ def evaluate_graph(case):
         return bad("obtain_vertices returned %r, vertices with arcs are %r" % (listed, with_arcs[:12]), labels)
 
     if k <= (4 if len(case["queries"]) else 4) and n <= 1024:
-        matrix = lib_call(dsw.accessor_to_adjacency_matrix, accessor=acc, verbose=verbose)
+        extra = {}
+        if case.get("maximum_length") is not None:
+            # the documented size guard: conversion is refused (MemoryError) from 4 ** maximum_length vertices on
+            extra["maximum_length"] = k + case["maximum_length"]
+            labels.append("maximum_length=k+%d" % case["maximum_length"])
+        matrix = lib_call(dsw.accessor_to_adjacency_matrix, accessor=acc, verbose=verbose, **extra)
+        if case.get("maximum_length") == 0:
+            if not (isinstance(matrix, Raised) and matrix.type is MemoryError):
+                return bad("accessor_to_adjacency_matrix(maximum_length=%d) on an order-%d graph: %r, MemoryError is "
+                           "documented" % (k, k, matrix), labels)
+            matrix = lib_call(dsw.accessor_to_adjacency_matrix, accessor=acc, verbose=verbose)
         if isinstance(matrix, Raised):
             return bad("accessor_to_adjacency_matrix raised %r" % matrix, labels)
         want = numpy.zeros((n, n), dtype=int)
